@@ -274,6 +274,26 @@ class Program:
                 return sig[1:] if sig and sig[0] in ("self", "cls") else None
         return None
 
+    PKG = PKG
+
+    def inlinable(self, ref: "FuncRef") -> bool:
+        """A package function that NO rule knows by name (its name occurs nowhere in the rule sources), is not a generator and is short:
+        the term layer reads such helpers through.  The vocabulary is computed once from the text of icgsa/rules and icgsa/bounds_domain."""
+        cache = self.__dict__.setdefault("_inl_cache", {})
+        if "__vocab__" not in cache:
+            import re
+            here = Path(__file__).resolve().parent
+            text = "\n".join(p.read_text() for p in list((here / "rules").glob("*.py")) + [here / "bounds_domain.py", here / "bitalg.py"])
+            cache["__vocab__"] = set(re.findall(r"[A-Za-z_][A-Za-z_0-9]*", text))
+        if ref.qual in cache:
+            return cache[ref.qual]
+        n = ref.node
+        ok = n.name not in cache["__vocab__"] and not n.name.startswith("__") and not n.decorator_list and \
+            not any(isinstance(x, (ast.Yield, ast.YieldFrom, ast.Global, ast.Nonlocal, ast.AsyncFunctionDef, ast.ClassDef, ast.Lambda and ast.FunctionDef)) for x in ast.walk(n) if x is not n) \
+            and sum(1 for x in ast.walk(n) if isinstance(x, ast.stmt)) <= 25
+        cache[ref.qual] = ok
+        return ok
+
     def all_functions(self) -> Iterator[FuncRef]:
         for m in self.modules.values():
             for d in m.defs.values():
